@@ -60,6 +60,16 @@ theorem isolation {s : State} (h : Reachable s) (op : Op) (j : Nat) (hj : j ∉ 
 
 example : (6 : Nat) ∉ Spec.targets (.iadd 0 3) := by decide
 
+/-- the Device entry points called directly on tensors that share one buffer:
+`add_bw` with `ga`, `gb` two copies of ONE zero tensor, `slice_bw` into a view's
+sharer, `inplace_add` on a copy of a parameter's gradient — each write stays in
+its target -/
+example : (run init [.new 0 [2] 2 [0, 0, 0, 0], .copy 0 3, .copy 0 6, .new 9 [2] 2 [1, 2, 3, 4],
+    .daddBw 9 3 6, .dsubBw 9 3 6, .new 12 [1] 2 [5, 6], .dsliceBw 12 0 1 3, .flatten 3 15, .dimul 15 2, .readall]).2.getLast?
+    = some (.all [(0, some (⟨[2], 2, 2⟩, [0, 0, 0, 0])), (3, some (⟨[2], 2, 2⟩, [2, 9, 6, 14])),
+        (6, some (⟨[2], 2, 2⟩, [0, 0, 0, 0])), (9, some (⟨[2], 2, 2⟩, [1, 2, 3, 4])),
+        (12, some (⟨[], 2, 1⟩, [5, 6])), (15, some (⟨[4], 1, 4⟩, [4, 18, 12, 28]))]) := by decide
+
 /-- … and the target gets the value the specification prescribes (one instance
 spelled out: `h += g` on valid operands of admissible shapes). -/
 theorem iadd_effect {s : State} (hr : Reachable s) {h g : Nat} {sy sx : Shape} {Y X : List Int}
@@ -91,22 +101,37 @@ example : getSlot (step (step init (.new 0 [2] 1 [1, 2])).1 (.move 0 3)).1.pool 
 /-- accessor or arithmetic use of the object in slot `h` -/
 def usesObject (h : Nat) : Op → Bool
   | .read x | .shape x | .device x | .reset x _ | .resetv x _ | .imul x _ | .flatten x _ | .reshape x _ _ _ => x == h
-  | .iadd x y | .isub x y => x == h || y == h
-  | .piaddValue _ y => y == h
+  | .iadd x y | .isub x y | .diadd x y | .disub x y => x == h || y == h
+  | .piaddValue _ y | .piaddGrad _ y => y == h
+  | .dimul x _ | .fcopy x _ | .fpositive x _ | .fconcat1 x _ _ | .fbconcat1 x _ | .probe _ x => x == h
+  | .dsliceBw gy _ _ gx | .dpickBw gy _ _ gx | .dflipBw gy _ gx | .dtransposeBw gy gx => gy == h || gx == h
+  | .daddBw gy ga gb | .dsubBw gy ga gb => gy == h || ga == h || gb == h
   | _ => false
 
-/-- the other objects the operation names exist (otherwise the harness answers `noobj`) -/
-def operandsExist (s : State) : Op → Bool
-  | .iadd x y | .isub x y => (getSlot s.pool x).isSome && (getSlot s.pool y).isSome
+/-- the protocol passes the call to the library: the other objects it names exist
+(otherwise the harness answers `noobj`) and, for the backward kernels, the
+operands are different objects (otherwise `alias`) -/
+def issued (s : State) : Op → Bool
+  | .iadd x y | .isub x y | .diadd x y | .disub x y => (getSlot s.pool x).isSome && (getSlot s.pool y).isSome
   | .piaddValue p _ => (getSlot s.pool (vslot p)).isSome
+  | .piaddGrad p _ => (getSlot s.pool (gslot p)).isSome
+  | .dsliceBw gy _ _ gx | .dpickBw gy _ _ gx | .dflipBw gy _ gx | .dtransposeBw gy gx =>
+    (getSlot s.pool gy).isSome && (getSlot s.pool gx).isSome && gy != gx
+  | .daddBw gy ga gb | .dsubBw gy ga gb =>
+    (getSlot s.pool gy).isSome && (getSlot s.pool ga).isSome && (getSlot s.pool gb).isSome &&
+      gy != ga && gy != gb && ga != gb
   | _ => true
 
 /-- **invalid_rejects_everything**: every accessor (`to_vector`, `shape`, `device`)
 and every arithmetic or view use (`reset*`, `*=`, `+=`, `-=` on either side,
-`reshape`, `flatten`, `param.value() +=`) of an invalid tensor is `err` — never
-`crash`, never `ok` — and changes nothing.  No invariant is needed. -/
+`reshape`, `flatten`, `param.value() +=`), every direct call of a Device entry point
+(`inplace_add/subtract/multiply_const`, `slice_bw`, `pick_bw`, `flip_bw`,
+`transpose_bw`, `add_bw`, `subtract_bw`, in any operand position) and every
+function of one operand (`copy`, `positive`, `concat({&h})`, `batch::concat({&h})`,
+`sum`, `h + h`, `matmul`, `batch::sum`, `to_float`, `argmax`) of an invalid tensor
+is `err` — never `crash`, never `ok` — and changes nothing.  No invariant is needed. -/
 theorem invalid_rejects_everything {s : State} {h : Nat} (hinv : getSlot s.pool h = some .invalid)
-    (op : Op) (hu : usesObject h op = true) (hex : operandsExist s op = true) :
+    (op : Op) (hu : usesObject h op = true) (hex : issued s op = true) :
     step s op = (s, .err) := by
   cases op <;> simp [usesObject] at hu
   case read x => subst hu; simp [step, hinv]
@@ -126,7 +151,7 @@ theorem invalid_rejects_everything {s : State} {h : Nat} (hinv : getSlot s.pool 
       | crash => exact absurd hn (shape_new_ne_crash dims batch)
     | ok nsh => simp [viewOp, hinv]
   case iadd x y =>
-    simp [operandsExist] at hex
+    simp [issued] at hex
     rcases hu with hu | hu <;> subst hu
     · cases hy : getSlot s.pool y with
       | none => simp [hy] at hex
@@ -135,7 +160,7 @@ theorem invalid_rejects_everything {s : State} {h : Nat} (hinv : getSlot s.pool 
       | none => simp [hx] at hex
       | some v => cases v <;> simp [step, inplace2, hinv, hx]
   case isub x y =>
-    simp [operandsExist] at hex
+    simp [issued] at hex
     rcases hu with hu | hu <;> subst hu
     · cases hy : getSlot s.pool y with
       | none => simp [hy] at hex
@@ -145,7 +170,7 @@ theorem invalid_rejects_everything {s : State} {h : Nat} (hinv : getSlot s.pool 
       | some v => cases v <;> simp [step, inplace2, hinv, hx]
   case piaddValue p y =>
     subst hu
-    simp [operandsExist] at hex
+    simp [issued] at hex
     cases hx : getSlot s.pool (vslot p) with
     | none => simp [hx] at hex
     | some v =>
@@ -154,7 +179,67 @@ theorem invalid_rejects_everything {s : State} {h : Nat} (hinv : getSlot s.pool 
       · rw [if_pos hf]; cases v <;> simp [inplace2, hinv, hx]
       · rw [if_neg hf]
 
+  case diadd x y =>
+    simp [issued] at hex
+    rcases hu with hu | hu <;> subst hu
+    · cases hy : getSlot s.pool y with
+      | none => simp [hy] at hex
+      | some v => cases v <;> simp [step, inplace2, hinv, hy]
+    · cases hx : getSlot s.pool x with
+      | none => simp [hx] at hex
+      | some v => cases v <;> simp [step, inplace2, hinv, hx]
+  case disub x y =>
+    simp [issued] at hex
+    rcases hu with hu | hu <;> subst hu
+    · cases hy : getSlot s.pool y with
+      | none => simp [hy] at hex
+      | some v => cases v <;> simp [step, inplace2, hinv, hy]
+    · cases hx : getSlot s.pool x with
+      | none => simp [hx] at hex
+      | some v => cases v <;> simp [step, inplace2, hinv, hx]
+  case dimul x k => subst hu; simp [step, hinv]
+  case fcopy x g => subst hu; simp [step, freshOp, hinv]
+  case fpositive x g => subst hu; simp [step, hinv]
+  case fconcat1 x g dim => subst hu; simp [step, freshOp, hinv]
+  case fbconcat1 x g => subst hu; simp [step, freshOp, hinv]
+  case probe fn x => subst hu; simp [step, hinv]
+  case piaddGrad p y =>
+    subst hu
+    simp [issued] at hex
+    cases hx : getSlot s.pool (gslot p) with
+    | none => simp [hx] at hex
+    | some v =>
+      simp only [step, hinv]
+      by_cases hf : s.pvalid.getD p false = true
+      · rw [if_pos hf]; cases v <;> simp [inplace2, hinv, hx]
+      · rw [if_neg hf]
+  case dsliceBw gy dim off gx =>
+    simp [issued] at hex
+    exact bwOp_invalid _ _ hex.2 hex.1.1 hex.1.2 (by rcases hu with hu | hu <;> subst hu <;> simp [hinv])
+  case dpickBw gy dim ids gx =>
+    simp [issued] at hex
+    exact bwOp_invalid _ _ hex.2 hex.1.1 hex.1.2 (by rcases hu with hu | hu <;> subst hu <;> simp [hinv])
+  case dflipBw gy dim gx =>
+    simp [issued] at hex
+    exact bwOp_invalid _ _ hex.2 hex.1.1 hex.1.2 (by rcases hu with hu | hu <;> subst hu <;> simp [hinv])
+  case dtransposeBw gy gx =>
+    simp [issued] at hex
+    exact bwOp_invalid _ _ hex.2 hex.1.1 hex.1.2 (by rcases hu with hu | hu <;> subst hu <;> simp [hinv])
+  case daddBw gy ga gb =>
+    simp [issued] at hex
+    obtain ⟨⟨⟨⟨⟨e1, e2⟩, e3⟩, n1⟩, n2⟩, n3⟩ := hex
+    exact abBwOp_invalid _ (by simp [n1, n2, n3]) e1 e2 e3 (by rcases hu with hu | hu | hu <;> subst hu <;> simp [hinv])
+  case dsubBw gy ga gb =>
+    simp [issued] at hex
+    obtain ⟨⟨⟨⟨⟨e1, e2⟩, e3⟩, n1⟩, n2⟩, n3⟩ := hex
+    exact abBwOp_invalid _ (by simp [n1, n2, n3]) e1 e2 e3 (by rcases hu with hu | hu | hu <;> subst hu <;> simp [hinv])
+
 example : getSlot (run init [.new 0 [2] 1 [1, 2], .move 0 3]).1.pool 0 = some .invalid := by decide
+
+example : (run init [.new 0 [2] 1 [1, 2], .move 0 3, .fconcat1 0 6 0, .fbconcat1 0 6, .fpositive 0 6, .fcopy 0 6,
+    .probe .sum0 0, .probe .matmul 0, .dsliceBw 3 0 0 0, .daddBw 3 0 6, .readall]).2
+    = [.ok, .ok, .err, .err, .err, .err, .err, .err, .err, .noobj,
+       .all [(0, none), (3, some (⟨[2], 1, 2⟩, [1, 2]))]] := by decide
 
 /-- **no_crash**: in no reachable state does any operation make the model touch
 freed memory, run past a buffer, or otherwise leave defined behaviour. -/
@@ -162,7 +247,10 @@ theorem no_crash {s : State} (hr : Reachable s) (op : Op) : (step s op).2 ≠ .c
   by_cases hop : op = .live
   · subst hop; simp [step]
   · rw [(step_refines (reachable_inv hr) op).2.2 hop]
-    exact spec_never_crashes _ op
+    refine spec_never_crashes ?_ op
+    obtain ⟨ops, rfl⟩ := hr
+    rw [(refines ops).2.1]
+    exact run_anz anz_init ops
 
 /-! ### buffers: freed exactly when the last owner goes, never twice -/
 
